@@ -22,14 +22,23 @@ ANCHOR_FUNCS = ["table:Table.window", "table:Table.aggregate"]
 REQUIRED_STRATA = {"recompute": 200, "window": 800, "window-vs-aggregate": 500}
 
 
-def run_window(chk, spec):
-	o, t = common.do_agg(spec, op="window")
+def run_window(chk, spec, table=None):
+	o, t = common.do_agg(spec, op="window", table=table)
 	n = spec["n"]
 	keycols = [common.ref_values(spec, r) for r in spec["over"]]
 	groups = c12.model_groups(keycols, n)
 	fns = tuple(sorted(spec["aggs"])) + tuple(sorted(a["fn"] for a in spec["apply"]))
 	chk.judged("window", ("win", len(keycols), tuple(r["mode"] for r in spec["over"]), min(len(groups), 4), fns,
 		any(v is None for c in spec["table"]["cols"] for v in c)))
+	group_of = {}
+	for gi, (_, rows) in enumerate(groups):
+		for i in rows:
+			group_of[i] = gi
+	expand = lambda vals: [vals[group_of[i]] for i in range(n)]
+	expected, model_exc = c12.model_or_raise(spec, groups, expand)
+	if model_exc is not None:
+		c12.apply_raises(chk, "window", spec, o, model_exc)
+		return
 	if not o.ok:
 		chk.fail("window computes every admissible request", f"window/raises/{type(o.exc).__name__}", f"{spec!r} raised {o!r}")
 		return
@@ -48,12 +57,7 @@ def run_window(chk, spec):
 	if len(cols) < nk or not all(M.same_list(g, e) for g, e in zip(cols[:nk], keycols)):
 		chk.fail("window reproduces the partition key columns unchanged, in row order", "window/key-columns", f"{spec!r}: key columns {short(cols[:nk], 200)} vs {short(keycols, 200)}")
 		return
-	group_of = {}
-	for gi, (_, rows) in enumerate(groups):
-		for i in rows:
-			group_of[i] = gi
-	expand = lambda vals: [vals[group_of[i]] for i in range(n)]
-	if not c12.judge_outputs(chk, "window", spec, names, cols, nk, c12.expected_outputs(spec, groups, expand), "window"):
+	if not c12.judge_outputs(chk, "window", spec, names, cols, nk, expected, "window"):
 		return
 	# rows of one group receive identical values
 	for nm, c in zip(names[nk:], cols[nk:]):
@@ -62,7 +66,7 @@ def run_window(chk, spec):
 				chk.fail("rows of one group receive identical values", "window/group-not-uniform", f"{spec!r}: column {nm!r} = {short(c, 200)}")
 				return
 	# independent second reference: the real aggregate joined back on the key
-	a, _t = common.do_agg(spec, op="aggregate")
+	a, _t = common.do_agg(spec, op="aggregate", table=table)
 	chk.judged("window-vs-aggregate", ("wva", len(keycols), min(len(groups), 4), fns))
 	if not a.ok:
 		chk.fail("aggregate accepts what window accepts", f"window/aggregate-raises/{type(a.exc).__name__}", f"{spec!r}: window returned but aggregate raised {a!r}")
@@ -88,7 +92,40 @@ def run_window(chk, spec):
 				return
 
 
-RUNNERS = {"window": run_window}
+def run_window_history(chk, spec):
+	"""a table that came out of sort_by (or an earlier window call) is an ordinary table: after its key cells are written in place, window() partitions by the
+	keys it holds NOW"""
+	import random
+	rng = random.Random(spec["seed"])
+	n = spec["n"]
+	k = [rng.choice(["a", "b", "c"]) for _ in range(n)]
+	g = [rng.choice([1, 2]) for _ in range(n)]
+	v = [rng.choice([1, 2, 5, None]) for _ in range(n)]
+	t0 = Table([Vector(k, name="k"), Vector(g, name="g"), Vector(v, name="v")])
+	how = spec["prepare"]
+	o = call(lambda: {"sort-k": lambda: t0.sort_by("k"), "sort-kg": lambda: t0.sort_by(["k", "g"]), "sort-gk": lambda: t0.sort_by(["g", "k"]), "plain": lambda: t0, "window-first": lambda: (t0.window(over="k", count_over="v"), t0)[1]}[how]())
+	if not o.ok or not isinstance(o.value, Table):
+		chk.skip("window-history-prepare-failed")
+		return
+	t = o.value
+	for _w in range(spec["writes"]):
+		i = rng.randrange(n)
+		col = rng.choice(["k", "k", "g"])
+		val = rng.choice(["a", "b", "c"]) if col == "k" else rng.choice([1, 2])
+		via = rng.choice(["view-attr", "view-item", "cols", "cell"])
+		call(lambda: {"view-attr": lambda: getattr(t, col).__setitem__(i, val), "view-item": lambda: t[col].__setitem__(i, val), "cols": lambda: t.cols()[0 if col == "k" else 1].__setitem__(i, val),
+			"cell": lambda: t.__setitem__((i, col), val)}[via]())
+	names, cols = J.cells(t)
+	over = spec["over"]
+	s2 = {"op": spec["op"], "table": {"names": names, "cols": cols}, "n": n, "over": [{"mode": spec["key_mode"], "name": nm} for nm in over], "scalar_over": len(over) == 1 and rng.random() < 0.5,
+		"aggs": {"sum": [{"mode": "name", "name": "v"}], "count": [{"mode": "name", "name": "v"}]}, "apply": [{"out": "vals", "col": {"mode": "name", "name": "v"}, "fn": "tuple"}]}
+	if spec["op"] == "window":
+		run_window(chk, s2, table=t)
+	else:
+		c12.run_aggregate(chk, s2, table=t)
+
+
+RUNNERS = {"window": run_window, "window_history": run_window_history, "agg_chain": c12.run_agg_chain}
 RUNNERS["recompute"] = recompute.runner("C13")
 
 
@@ -97,6 +134,10 @@ def run(chk):
 	rng = chk.rng
 	for spec in c12.exhaustive_specs(chk, "window"):
 		chk.case("window", spec, "window-exhaustive")
+	c12.chain_cases(chk, "window")
+	for _ in range(200 if chk.quick() else 1500):
+		chk.case("window_history", {"seed": rng.randrange(10**9), "n": rng.choice([3, 4, 6, 8]), "prepare": rng.choice(["sort-k", "sort-kg", "sort-gk", "plain", "window-first"]), "writes": rng.choice([0, 1, 2, 3]),
+			"over": rng.choice([["k"], ["k", "g"], ["g"], ["g", "k"]]), "key_mode": rng.choice(["name", "vector"]), "op": rng.choice(["window", "window", "aggregate"])}, "window-history")
 	for _ in range(700 if chk.quick() else 4000):
 		spec = common.gen_agg_spec(rng, max_rows=rng.choice([6, 10]) if chk.quick() else rng.choice([6, 10, 40, 150]), op="window")
 		chk.case("window", spec, "window-sampled")
